@@ -821,10 +821,10 @@ namespace
 
 int main(int argc, char** argv)
 {
-    Args a = parse_args(argc, argv);
-    return run_sharded(a,
+    return sse_main(argc, argv, { "C01", "C02", "C03", "C04", "C05", "C06", "C19" },
                        [&](Ctx& ctx)
                        {
+                           const Args& a = ctx.args;
                            ProgramSet ps = programs_for(a.property, a.thorough());
                            if (ps.progs.empty())
                            {
